@@ -219,8 +219,8 @@ impl CoreView {
         for w in &snap.workers {
             let a = if let Some((assigned, free, prefilled)) = &w.sn {
                 format!("sn a={} f={} p={}", tids(assigned), list(free.iter()), tids(prefilled))
-            } else if let Some((t, root)) = &w.mn {
-                format!("mn {} {}", tid(*t), *root as u8)
+            } else if let Some((t, root, started)) = &w.mn {
+                format!("mn {} {} {}", tid(*t), *root as u8, *started as u8)
             } else {
                 "?".to_string()
             };
